@@ -1,0 +1,30 @@
+//go:build verif
+
+package entry
+
+import (
+	bn256 "github.com/ethereum/go-ethereum/crypto/bn256/cloudflare"
+	"github.com/ipfs/go-log/v2"
+	"github.com/keep-network/keep-core/pkg/beacon/dkg"
+	"github.com/keep-network/keep-core/pkg/protocol/group"
+)
+
+// VerifExtractAndValidateShare exposes extractAndValidateShare to the
+// verification harness (property C03).
+func VerifExtractAndValidateShare(
+	message *SignatureShareMessage,
+	groupPublicKeyShares map[group.MemberIndex]*bn256.G2,
+	previousEntry *bn256.G1,
+) (*bn256.G1, error) {
+	return extractAndValidateShare(message, groupPublicKeyShares, previousEntry)
+}
+
+// VerifCompleteSignature exposes completeSignature to the verification
+// harness (property C03).
+func VerifCompleteSignature(
+	signer *dkg.ThresholdSigner,
+	shares map[group.MemberIndex]*bn256.G1,
+	honestThreshold int,
+) (*bn256.G1, error) {
+	return completeSignature(log.Logger("verif-c03"), signer, shares, honestThreshold)
+}
